@@ -29,7 +29,7 @@ MONITORS = ["group", "group_raises", "count_steps", "count_mines", "count_holds_
 REQUIRED = ["overlapping_holds", "interrupted_head", "orphan_tail", "unclosed_head", "same_beat_mixed_types",
             "corpus_chart", "interrupted_head_while_younger_open", "type_subset", "stream_given_as_notedata",
             "full_row_with_minimum_equal_to_columns", "consecutive_notes_less_than_a_tick_apart",
-            "some_hold_open_for_more_than_256_notes"]
+            "some_hold_open_for_more_than_256_notes", "include_note_types_given_as_a_plain_set", "notedata_input_in_compact_layout"]
 
 GRID_KINDS = "01234M"  # index 0..4 used: 0 empty, 1 tap, 2 hold head, 3 tail, 4 -> mine
 GRID_MAP = ["0", "1", "2", "3", "M"]
@@ -215,13 +215,16 @@ def run_stream(ctx, notes, include, minimum, case):
     SB = {R.SEPARATE: SameBeatNotes.KEEP_SEPARATE, R.BY_TYPE: SameBeatNotes.JOIN_BY_NOTE_TYPE, R.ALL: SameBeatNotes.JOIN_ALL}
     OP = {R.RAISE: OrphanedNotes.RAISE_EXCEPTION, R.KEEP: OrphanedNotes.KEEP_ORPHAN, R.DROP: OrphanedNotes.DROP_ORPHAN}
 
-    for sb, join, oh, ot in OPTIONS:
+    for oi, (sb, join, oh, ot) in enumerate(OPTIONS):
         key = f"sb{sb}-join{int(join)}-oh{oh}-ot{ot}"
         try:
             want = ("ok", R.group(model, inc_model, sb, join, oh, ot))
         except R.Raised as e:
             want = ("raise", e.note)
-        kwargs = dict(include_note_types=inc_real, same_beat_notes=SB[sb], join_heads_to_tails=join)
+        # the subset is given as a frozenset or (as in the documentation's examples) as a plain set
+        kwargs = dict(include_note_types=set(inc_real) if oi % 2 else inc_real, same_beat_notes=SB[sb], join_heads_to_tails=join)
+        if oi % 2:
+            ctx.feat("include_note_types_given_as_a_plain_set")
         if join:
             kwargs.update(orphaned_head=OP[oh], orphaned_tail=OP[ot])
         try:
@@ -281,7 +284,8 @@ def run_stream(ctx, notes, include, minimum, case):
         ctx.expect(C.count_hands(iter(real), same_beat_minimum=minimum) == R.count_steps(model, minimum=minimum),
                    "count_hands:minimum", minimum=minimum)
     # the same questions with the stream given as a NoteData object (an Iterable[Note] like any other)
-    if real and len(real) <= 400 and all(n.keysound_index is None or n.note_type.value != "3" for n in real):
+    if real and len(real) <= 400 and all(n.keysound_index is None or n.note_type.value != "3" for n in real) \
+            and all(n.beat.denominator <= 1000 for n in real):   # (a measure has 4 x LCM(denominators) rows)
         from simfile.notes import NoteData
 
         columns = max(n.column for n in real) + 1
@@ -304,6 +308,19 @@ def run_stream(ctx, notes, include, minimum, case):
                     ctx.expect(got == want, f"{fn.__name__}:notedata-input", minimum=m, columns=columns, want=want, got=got)
             ctx.expect(C.count_jumps(nd) == R.count_steps(model, minimum=2), "count_jumps:notedata-input", columns=columns)
             ctx.expect(C.count_hands(nd) == R.count_steps(model, minimum=3), "count_hands:notedata-input-default", columns=columns)
+            # the same chart in the compact layout (the measure separator on a row line: "0001,1000")
+            compact = NoteData(str(nd).replace("\n,\n", ","))
+            if "," in str(compact) and list(compact) == real:
+                ctx.feat("notedata_input_in_compact_layout")
+                for m in sorted({1, 2, 3}):
+                    for sbm in (R.ALL, R.SEPARATE, R.BY_TYPE):
+                        ctx.mon("count_steps")
+                        got = C.count_steps(compact, same_beat_notes=SB[sbm], same_beat_minimum=m)
+                        want = R.count_steps(model, R.DEFAULT_TYPES, sbm, m)
+                        ctx.expect(got == want, f"count_steps:compact-notedata-input:sb{sbm}", minimum=m, want=want, got=got, text=str(compact)[:200])
+                ctx.expect(C.count_jumps(compact) == R.count_steps(model, minimum=2), "count_jumps:compact-notedata-input")
+                ctx.expect(C.count_hands(compact) == R.count_steps(model, minimum=3), "count_hands:compact-notedata-input")
+                ctx.expect(C.count_mines(compact) == R.count_mines(model), "count_mines:compact-notedata-input")
             try:
                 g1 = [[real_item(x) for x in g] for g in group_notes(nd, same_beat_notes=SB[R.ALL])]
                 ctx.expect(g1 == R.group(model, frozenset(G.NOTE_CHARS), R.ALL, False), "group:notedata-input")
